@@ -3,7 +3,8 @@ BOUNDS = {
     'quick': 'optional<TA>, variant<TA,TB,int>, expected<TA,TB> with instrumented alternatives (copy+move; move-only and copy-only for the subset that compiles): one operation from every state, '
              'every (from, to) index pair of assignment / swap / emplace / converting construction and assignment (index symbolic, case-split inside one query); payloads and object bytes symbolic; '
              'histories of 2 symbolic operations on two objects from the default-constructed pair (copy+move; 6 op codes variant, 7 optional)',
-    'thorough': 'the same single steps plus histories from every state pair: 2 operations on two variants, 3 operations on two optionals (all three flavours)',
+    'thorough': 'the same single steps plus histories: 2 operations on two variants from every state pair (copy+move) and from (TA, TB) (move-only, copy-only); 3 operations on two optionals from the empty pair, '
+                'one query per first operation (copy+move), 2 operations from (engaged, empty) (move-only, copy-only)',
 }
 ASSUMPTIONS = [
     'C03: operator*, error(), unchecked_get are called inside their precondition (has_value / index match); contract checks compiled out',
@@ -44,11 +45,11 @@ def queries(tier, prop='C03'):
             for f in range(6): add('v_hist', 0, budget=300, KSTEPS=2, HSA=0, HSB=0, FIRST=f)   # one query per first operation
             for f in range(7): add('o_hist', 0, budget=300, KSTEPS=2, HSA=0, HSB=0, FIRST=f)
         else:
-            for fl in (0, 1, 2):
-                for a in (0, 1, 2):
-                    for b in (0, 1, 2): add('v_hist', fl, budget=2400, KSTEPS=2, HSA=a, HSB=b)
-                for a in (0, 1):
-                    for b in (0, 1): add('o_hist', fl, budget=2400, KSTEPS=3, HSA=a, HSB=b)
+            for a in (0, 1, 2):
+                for b in (0, 1, 2): add('v_hist', 0, budget=2400, KSTEPS=2, HSA=a, HSB=b)
+            for fl in (1, 2): add('v_hist', fl, budget=2400, KSTEPS=2, HSA=0, HSB=1)
+            for f in range(7): add('o_hist', 0, budget=2400, KSTEPS=3, HSA=0, HSB=0, FIRST=f)
+            for fl in (1, 2): add('o_hist', fl, budget=2400, KSTEPS=2, HSA=1, HSB=0)
     for q_ in out:
         q_['lazy_trace'] = True   # verdict first, counterexample trace only when an obligation fails (engine/runner.py)
     return out
